@@ -330,7 +330,7 @@ structure Observed where
   diag : Nat
   /-- builder calls / Main invocations that panicked -/
   panics : Nat
-  /-- class of the reported compile error, if recognised -/
+  /-- class of the reported compile error, when its message is a recognised one -/
   passErr : Option PassErr
   deriving Repr, DecidableEq
 
@@ -338,21 +338,21 @@ structure Observed where
 the compile-time faults present in the built file.  Nothing panics; any
 builder-time fault ⇒ non-zero status, nothing written to either output, exactly
 one message per fault; only compile-time faults ⇒ non-zero status, nothing
-written, the reported error is one of them; no fault ⇒ status 0, no error, both
-outputs written. -/
+written, and the reported error — when its message is recognised — is one of
+them; no fault ⇒ status 0, no error, both outputs written. -/
 def Spec (nf : Nat) (pf : List PassErr) (o : Observed) : Prop :=
   o.panics = 0 ∧
   (nf > 0 → o.status ≠ 0 ∧ o.asm = 0 ∧ o.stubs = 0 ∧ o.errs = nf ∧ o.diag = nf) ∧
   (nf = 0 → pf ≠ [] → o.status ≠ 0 ∧ o.asm = 0 ∧ o.stubs = 0 ∧ o.errs = 0 ∧
-      ∃ e, o.passErr = some e ∧ e ∈ pf) ∧
+      ∀ e, o.passErr = some e → e ∈ pf) ∧
   (nf = 0 → pf = [] → o.status = 0 ∧ o.errs = 0 ∧ o.diag = 0 ∧ o.asm > 0 ∧ o.stubs > 0)
 
 instance (nf pf o) : Decidable (Spec nf pf o) := by
   unfold Spec
-  have : Decidable (∃ e, o.passErr = some e ∧ e ∈ pf) :=
+  have : Decidable (∀ e, o.passErr = some e → e ∈ pf) :=
     match h : o.passErr with
-    | none => isFalse (by simp)
-    | some e => if hm : e ∈ pf then isTrue ⟨e, rfl, hm⟩ else isFalse (by simpa using hm)
+    | none => isTrue (by simp)
+    | some e => if hm : e ∈ pf then isTrue (by simpa using hm) else isFalse (by simpa using hm)
   exact inferInstance
 
 /-- Executable acceptor used on the implementation's outcome. -/
@@ -450,5 +450,39 @@ example : fnPassFaults (fun _ => 15)
 
 example : fnPassFaults (fun _ => 15) { name := "f", nodes := [.press 1 16] } = [.alloc] := by decide
 example : fnPassFaults (fun _ => 15) { name := "f", nodes := [.press 1 15] } = [] := by decide
+
+/-! ## What the property demands at the witnesses of the listed findings
+
+The implementation's behaviour at these inputs (a panic, a silently accepted
+request) is observed by the harness on every run; these theorems fix what the
+property requires there, so that the disagreement is a violation and not a
+modelling choice. -/
+
+/-- `ParamIndex(-1)` is an invalid request that must surface as exactly one
+"index out of range" error when the component is loaded (F3: the implementation panics). -/
+theorem witness_paramIndex_negative :
+    faults Ctx.init [.function "f", .signature (some ⟨[("x", .int 8 true)], []⟩), .paramIndex (-1),
+      .load 0 1 false] = [.indexRange] := by decide
+
+/-- `Param("x").Index(-1)` on `[2]float64` must be reported as out of bounds
+when loaded (F3: the implementation reports nothing and emits the MOV). -/
+theorem witness_index_negative :
+    faults Ctx.init [.function "f", .signature (some ⟨[("x", .array 2 (.float 8))], []⟩), .param "x",
+      .nav 0 (.index (-1)), .load 1 2 false] = [.arrayBounds] := by decide
+
+/-- `RDTSC; CDQ; RET` is a valid history with no compile-time fault for any
+register file, so the property demands status 0 and both outputs written (F4: `Main` panics). -/
+theorem witness_implicit_only_valid (lim : Nat → Nat) :
+    let ops := [Op.function "f", .instr true ⟨0, [1], []⟩, .instr true ⟨0, [1], []⟩, .instr true ⟨0, [], []⟩]
+    faults Ctx.init ops = [] ∧ passFaults lim (run Ctx.init ops).fns = [] ∧
+      (observe lim ops).status = 0 ∧ (observe lim ops).asm = 1 ∧ (observe lim ops).stubs = 1 := by
+  refine ⟨by decide, ?_⟩
+  have h : passFaults lim (run Ctx.init [Op.function "f", .instr true ⟨0, [1], []⟩, .instr true ⟨0, [1], []⟩,
+      .instr true ⟨0, [], []⟩]).fns = [] := by
+    simp [passFaults, fnPassFaults, run, step, Ctx.newFn, Ctx.addNode, Ctx.withFn, Ctx.init, Ctx.fns,
+      Node.memFaults, pruneJumps, pruneDangling, isJumpTo, referenced, Node.target, Instr.target, labelScan]
+  refine ⟨h, ?_⟩
+  simp only [observe, main, stdPasses, h]
+  decide
 
 end Avo.Ctx
